@@ -414,9 +414,16 @@ structure PSelf where
   deriving DecidableEq, Repr
 
 /-- `ProductSpaceElement.__array_wrap__(array)`: `()`-shaped → Python scalar; otherwise
-`self.space.element(array)`: the array must have the space's shape and is CAST to the
-space's dtype. -/
+`self.space.astype(array.dtype).element(array)`: the array must have the space's shape; the
+wrapping power space has the ARRAY's dtype. -/
 def powerWrap (s : PSelf) : NpVal → Except String Ret
+  | .none => .ok .none
+  | .scalar => .ok .scalar
+  | .arr sh dt => if sh = [] then .ok .scalar
+                  else if sh = s.shape then .ok (.wrapP s.shape dt) else .error "ValueError"
+
+/-- Before the repair (part of C17-F6) the array was CAST into the original space. -/
+def powerWrapOld (s : PSelf) : NpVal → Except String Ret
   | .none => .ok .none
   | .scalar => .ok .scalar
   | .arr sh _ => if sh = [] then .ok .scalar
